@@ -70,6 +70,7 @@ func c14Init() {
 	s.AddGlobal("recv1", func(a string, r ...string) string { return c14Rec("recv1", append([]string{a}, r...)...) })
 	s.AddGlobal("recv0", func(r ...string) string { return c14Rec("recv0", r...) })
 	s.AddGlobal("sw", jet.SafeWriter(func(w io.Writer, b []byte) { w.Write([]byte("{" + string(b) + "}")) }))
+	s.AddGlobal("gnilv", nil)
 	s.AddGlobal("obj", c14Obj{})
 	s.AddGlobal("pobj", &c14Obj{})
 	s.AddGlobalFunc("jf", func(a jet.Arguments) reflect.Value {
@@ -87,7 +88,13 @@ func c14Init() {
 		for i := range ptrs {
 			ptrs[i] = &strs[i]
 		}
-		if err := a.ParseInto(ptrs...); err != nil {
+		allValid := true
+		for i := 0; i < n; i++ {
+			allValid = allValid && a.Get(i).IsValid()
+		}
+		if !allValid {
+			// ParseInto refuses an invalid value by contract; nothing to compare
+		} else if err := a.ParseInto(ptrs...); err != nil {
 			view = append(view, "parseinto-error: "+err.Error())
 		} else if strings.Join(strs, ",") != strings.Join(args, ",") {
 			view = append(view, "parseinto="+strings.Join(strs, ","))
@@ -120,6 +127,8 @@ func c14Callee(c string) string {
 		return "obj.M2"
 	case "pm2":
 		return "pobj.PM2"
+	case "nilv":
+		return "gnilv"
 	}
 	return c
 }
@@ -140,6 +149,9 @@ func c14Source(st []c14Stage) string {
 			b.WriteString(" | ")
 		}
 		b.WriteString(c14Callee(s.C))
+		if s.C == "nilv" {
+			continue // a bare term, not a call
+		}
 		switch s.Shape {
 		case "plain", "pipeparen", "slot", "slot2":
 			b.WriteString("(" + strings.Join(args, ", ") + ")")
@@ -221,7 +233,7 @@ func c14Replay(i int, raw json.RawMessage) Result {
 		n := len(c.Args)
 		want := []string{fmt.Sprintf("n=%d", n)}
 		for j := 0; j < n; j++ {
-			want = append(want, fmt.Sprintf("isset(%d)=true", j))
+			want = append(want, fmt.Sprintf("isset(%d)=%v", j, c.Args[j] != "<invalid Value>"))
 		}
 		want = append(want, fmt.Sprintf("isset(%d)=false", n), fmt.Sprintf("get(%d).valid=false", n))
 		if k+len(want) > len(c14View) || strings.Join(c14View[k:k+len(want)], ";") != strings.Join(want, ";") {
